@@ -828,8 +828,39 @@ def r01_8(ctx, prog, crate):
         ctx.check(passed, "R01.8", [b.path, "is-the-recorders-count_input"], "the counting closure is not built in the per-thread record closure", b.where(0))
 
 
+def r01_9(ctx, prog, crate):
+    """An input counter given to the Bencher is installed whatever the mode: Bencher::input_counter hands its closure to
+    CounterCollection::set_input_counter exactly once on every path (no test-mode or other short cut), and
+    count_inputs_as reaches input_counter exactly once on every path."""
+    from lib.patheval import PathEval
+    n = 0
+    for fn, callee, what in (("benchmark::Bencher::input_counter", "counter::collection::CounterCollection::set_input_counter", "installs the counter"),
+                             ("benchmark::Bencher::count_inputs_as", "benchmark::Bencher::input_counter", "goes through input_counter")):
+        for b in prog.find(fn, crate):
+            if b.kind != "AssocFn":
+                continue
+            ctx.saw(b)
+            n += 1
+            sums = PathEval(b).run()
+            short = fn.rsplit("::", 1)[-1]
+            if not ctx.check(bool(sums), "R01.9", [short, "readable"], "cannot enumerate the paths of `%s`" % fn, b.where(0)):
+                continue
+            bad = [s for s in sums if len([c for c in s.calls if c[0] == callee]) != 1]
+            ctx.check(not bad, "R01.9", [short, "on-every-path"],
+                      "`%s` %s on %d of its %d paths only%s" % (fn, what, len(sums) - len(bad), len(sums),
+                                                                 (" (skipped when %s)" % (bad[0].conds,)) if bad else ""), b.where(0))
+            if fn.endswith("::input_counter"):
+                for s in sums:
+                    for c in s.calls:
+                        if c[0] == callee:
+                            ctx.check(len(c[1]) == 2 and c[1][1] == ("arg", 2, ()) and "counters" in str(c[1][0]) and "1" in str(c[1][0]), "R01.9", [short, "the-given-counter-into-own-context"],
+                                      "input_counter installs %s" % (c[1],), b.where(c[2]))
+    ctx.anchor("R01.9", "Bencher::input_counter / count_inputs_as", n, 2)
+
+
 def run(ctx, prog, crate):
     r01_8(ctx, prog, crate)
+    r01_9(ctx, prog, crate)
     rec = Recorder(prog, crate)
     if not ctx.anchor("R01.1", "sample recorder body", 1 if rec.body is not None else 0, 1):
         return
